@@ -34,6 +34,8 @@ def _n(e):
 def check_isolate(rep, ix):
     ea = exc.ExcAnalysis(ix)
     # the LIS frame plan divides by its frame size: positive by the invariant C20 proves (obligations R-C20-FRAMESIZE)
+    from . import C14
+    C14.check_row_length(rep, ix)
     from . import C20
     if C20._frame_size_positive(rep, ix):
         ea.proved_nonzero = frozenset({('TotalDepth.LIS.core.Type01Plan', 'self._frameSize')})
